@@ -398,6 +398,12 @@ structure TInv (m : Nat) (inf : List Entry) (q : DelayQ) (now : Nat) : Prop wher
   e2t : ∀ en ∈ inf, ∃ w, q.Has en.timerKey en.id w ∧ en.ctx.deadline ≤ w * nsPerMs + en.remainder
   /-- every timer belongs to an entry -/
   t2e : ∀ k v w, q.Has k v w → ∃ en ∈ inf, en.timerKey = k ∧ en.id = v
+  /-- the entry's exact due time (`timer_due`): with the remainder it reaches the deadline, and no more than
+  `max deadline now` (it is `max deadline (time of insertion)`, constant across re-arms); the armed timer is its
+  millisecond ceiling -/
+  due : ∀ en ∈ inf, ∀ w, q.Has en.timerKey en.id w →
+    en.ctx.deadline ≤ en.dueAt + en.remainder ∧ en.dueAt + en.remainder ≤ max en.ctx.deadline now ∧
+    en.dueAt ≤ w * nsPerMs ∧ w * nsPerMs < en.dueAt + nsPerMs
 
 /-- Request ids queued or in flight are pairwise distinct and were all handed out already. -/
 structure IdInv (pq : List DReq) (inf : List Entry) (nextId : Nat) : Prop where
@@ -538,12 +544,14 @@ theorem TInv.same {m : Nat} {inf : List Entry} {q q' : DelayQ} {now : Nat} (h : 
     (hq : TimersSame q q') : TInv m inf q' now := by
   have hh := has_of_fields hq.entries hq.expired
   refine ⟨h.bound, wf_of_fields h.wf hq.entries hq.expired hq.nextKey hq.wheelElapsed,
-    timely_of_fields h.timely hq.expired hq.wheelElapsed hq.wheelNow, ?_, ?_⟩
+    timely_of_fields h.timely hq.expired hq.wheelElapsed hq.wheelNow, ?_, ?_, ?_⟩
   · intro en hen
     obtain ⟨w, h1, h2⟩ := h.e2t en hen
     exact ⟨w, (hh _ _ _).mpr h1, h2⟩
   · intro k v w hk
     exact h.t2e k v w ((hh _ _ _).mp hk)
+  · intro en hen w hw
+    exact h.due en hen w ((hh _ _ _).mp hw)
 
 theorem Inv'.quiet {x : Option Nat} {b : Snap} {s s' : St} {now : Nat} (h : Inv' x b s now) (hq : Quiet s s') :
     Inv' x b s' now := by
@@ -574,7 +582,9 @@ theorem eq_of_nodup_map {α β : Type} (f : α → β) {l : List α} (h : (l.map
 
 theorem TInv.mono {m : Nat} {inf : List Entry} {q : DelayQ} {now now' : Nat} (h : TInv m inf q now)
     (hle : now ≤ now') : TInv m inf q now' :=
-  ⟨h.bound, h.wf, h.timely.mono hle, h.e2t, h.t2e⟩
+  ⟨h.bound, h.wf, h.timely.mono hle, h.e2t, h.t2e, fun en hen w hw => by
+    obtain ⟨a, b, c, d⟩ := h.due en hen w hw
+    exact ⟨a, by omega, c, d⟩⟩
 
 theorem TInv.remove_ne_none {m : Nat} {inf : List Entry} {q : DelayQ} {now : Nat} (h : TInv m inf q now)
     {e : Entry} (he : e ∈ inf) : q.remove e.timerKey ≠ none := by
@@ -587,7 +597,10 @@ theorem TInv.remove {m : Nat} {inf : List Entry} {q q' : DelayQ} {now : Nat} {b 
     (hn : (inf.map (·.id)).Nodup) {e : Entry} (he : e ∈ inf) (hr : q.remove e.timerKey = some (q', b)) :
     TInv m (inf.filter (·.id != e.id)) q' now := by
   have hs := remove_spec h.wf hr
-  refine ⟨Nat.le_trans (List.length_filter_le _ _) h.bound, hs.wf, hs.timely now h.timely, ?_, ?_⟩
+  refine ⟨Nat.le_trans (List.length_filter_le _ _) h.bound, hs.wf, hs.timely now h.timely, ?_, ?_, ?_⟩
+  rotate_left 2
+  · intro en hen w hw
+    exact h.due en (List.mem_filter.mp hen).1 w ((hs.has _ _ _).mp hw).1
   · intro en hen
     simp only [List.mem_filter, bne_iff_ne, ne_eq] at hen
     obtain ⟨w, hw, hd⟩ := h.e2t en hen.1
@@ -607,14 +620,44 @@ theorem TInv.remove {m : Nat} {inf : List Entry} {q q' : DelayQ} {now : Nat} {b 
     rw [this] at e1
     exact hk2 e1.symm
 
-/-- A new entry whose timer is armed now with timeout `t`, if `t` and the entry's `remainder` reach its deadline. -/
+/-- the deadline `insert` computes is the millisecond ceiling of `now + timeout` (the wheel is not ahead of the clock) -/
+theorem insertWhen_bounds {q : DelayQ} {now t : Nat} (ht : q.Timely now) :
+    now + t ≤ insertWhen q now t * nsPerMs ∧ insertWhen q now t * nsPerMs < now + t + nsPerMs := by
+  have h1 := ht.elapsed
+  unfold insertWhen ceilMs nsPerMs at *
+  omega
+
+/-- A new entry whose timer is armed now with timeout `t` (so it is due at `now + t`), if that and the entry's
+`remainder` reach its deadline and not more than `max deadline now`. -/
 theorem TInv.insertEntry {m : Nat} {inf : List Entry} {q q' : DelayQ} {now t : Nat} {b : Bool} (h : TInv m inf q now)
     (hlt : inf.length < m) (en' : Entry)
     (hi : q.insert now t en'.id = (q', .ok en'.timerKey, b))
-    (hd : en'.ctx.deadline ≤ now + t + en'.remainder) :
+    (hdue : en'.dueAt = now + t)
+    (hd : en'.ctx.deadline ≤ now + t + en'.remainder) (hd2 : now + t + en'.remainder ≤ max en'.ctx.deadline now) :
     TInv m (inf ++ [en']) q' now := by
   have hs := insert_spec h.wf hi
-  refine ⟨by simp; omega, hs.wf, hs.timely now h.timely, ?_, ?_⟩
+  refine ⟨by simp; omega, hs.wf, hs.timely now h.timely, ?_, ?_, ?_⟩
+  rotate_left 2
+  · intro en hen w hw
+    have hb := insertWhen_bounds (t := t) h.timely
+    simp only [List.mem_append, List.mem_singleton] at hen
+    rcases (hs.has _ _ _).mp hw with hw | ⟨hk, -, hwq⟩
+    · rcases hen with hen | rfl
+      · exact h.due en hen w hw
+      · -- the new key is fresh
+        exfalso
+        obtain ⟨d, hd', hk', -⟩ := hw
+        have := h.wf.keyLt d hd'
+        rw [hk', hs.key] at this
+        exact Nat.lt_irrefl _ this
+    · rcases hen with hen | rfl
+      · exfalso
+        obtain ⟨w0, ⟨d, hd', hk', -⟩, -⟩ := h.e2t en hen
+        have := h.wf.keyLt d hd'
+        rw [hk', hk, hs.key] at this
+        exact Nat.lt_irrefl _ this
+      · subst hwq
+        rw [hdue]; exact ⟨hd, hd2, hb.1, hb.2⟩
   · intro en hen
     simp only [List.mem_append, List.mem_singleton] at hen
     rcases hen with hen | rfl
@@ -633,15 +676,17 @@ theorem TInv.insert {m : Nat} {inf : List Entry} {q q' : DelayQ} {now : Nat} {b 
     (hlt : inf.length < m) (id cid key : Nat) (ctx : Ctx)
     (hi : q.insert now (clampTimeout (ctx.deadline - now)) id = (q', .ok key, b)) :
     TInv m (inf ++ [{ id := id, cid := cid, ctx := ctx, timerKey := key,
-                      remainder := (ctx.deadline - now) - clampTimeout (ctx.deadline - now) }]) q' now :=
-  h.insertEntry hlt _ hi (deadline_le_arm now ctx.deadline)
+                      remainder := (ctx.deadline - now) - clampTimeout (ctx.deadline - now),
+                      dueAt := now + clampTimeout (ctx.deadline - now) }]) q' now :=
+  h.insertEntry hlt _ hi rfl (deadline_le_arm now ctx.deadline) (by
+    have := clampTimeout_le_self (ctx.deadline - now); simp only; omega)
 
 /-- The table only matters as a set (of at most `m` entries). -/
 theorem TInv.of_mem {m : Nat} {inf inf' : List Entry} {q : DelayQ} {now : Nat} (h : TInv m inf q now)
     (hb : inf'.length ≤ m) (hm : ∀ x, x ∈ inf' ↔ x ∈ inf) : TInv m inf' q now :=
   ⟨hb, h.wf, h.timely, fun en hen => h.e2t en ((hm en).mp hen), fun k v w hk => by
     obtain ⟨en, hen, e1, e2⟩ := h.t2e k v w hk
-    exact ⟨en, (hm en).mpr hen, e1, e2⟩⟩
+    exact ⟨en, (hm en).mpr hen, e1, e2⟩, fun en hen w hw => h.due en ((hm en).mp hen) w hw⟩
 
 /-- `poll_expired` on a consistent table: a yielded timer belongs to exactly one entry, whose timer (which is due) and
 `remainder` reach its deadline; without the entry the table is consistent with the queue after the poll. -/
@@ -649,7 +694,9 @@ theorem TInv.expired {m : Nat} {inf : List Entry} {q : DelayQ} {now : Nat} (h : 
     (hn : (inf.map (·.id)).Nodup) :
     (∀ e, (q.pollExpired now).2 = .expired e →
       ∃ en ∈ inf, en.id = e.val ∧ en.ctx.deadline ≤ e.whenMs * nsPerMs + en.remainder ∧ e.whenMs * nsPerMs ≤ now ∧
-        TInv m (inf.filter (·.id != e.val)) (q.pollExpired now).1 now) ∧
+        TInv m (inf.filter (·.id != e.val)) (q.pollExpired now).1 now ∧
+        (en.ctx.deadline ≤ en.dueAt + en.remainder ∧ en.dueAt + en.remainder ≤ max en.ctx.deadline now ∧
+          en.dueAt ≤ e.whenMs * nsPerMs ∧ e.whenMs * nsPerMs < en.dueAt + nsPerMs)) ∧
     ((q.pollExpired now).2.entry = none → TInv m inf (q.pollExpired now).1 now) := by
   have hs := pollExpired_spec q now h.wf h.timely
   constructor
@@ -660,9 +707,14 @@ theorem TInv.expired {m : Nat} {inf : List Entry} {q : DelayQ} {now : Nat} (h : 
     have hwe : w = e.whenMs := by
       rw [e1, e2] at hw
       exact (Has.functional h.wf hw h1).2
-    refine ⟨en, hen, e2, ?_, h2, ?_⟩
+    refine ⟨en, hen, e2, ?_, h2, ?_, ?_⟩
     · rw [hwe] at hd; exact hd
-    · refine ⟨Nat.le_trans (List.length_filter_le _ _) h.bound, hs.wf, hs.timely, ?_, ?_⟩
+    rotate_left
+    · exact h.due en hen e.whenMs (by rw [e1, e2]; exact h1)
+    · refine ⟨Nat.le_trans (List.length_filter_le _ _) h.bound, hs.wf, hs.timely, ?_, ?_, ?_⟩
+      rotate_left 2
+      · intro en' hen' w' hw'
+        exact h.due en' (List.mem_filter.mp hen').1 w' ((h3 _ _ _).mp hw').1
       · intro en' hen'
         simp only [List.mem_filter, bne_iff_ne, ne_eq] at hen'
         obtain ⟨w', hw', hd'⟩ := h.e2t en' hen'.1
@@ -682,18 +734,22 @@ theorem TInv.expired {m : Nat} {inf : List Entry} {q : DelayQ} {now : Nat} (h : 
         exact hk2 f1.symm
   · intro hnone
     have h3 := hs.none hnone
-    refine ⟨h.bound, hs.wf, hs.timely, ?_, ?_⟩
+    refine ⟨h.bound, hs.wf, hs.timely, ?_, ?_, ?_⟩
     · intro en hen
       obtain ⟨w, hw, hd⟩ := h.e2t en hen
       exact ⟨w, (h3 _ _ _).mpr hw, hd⟩
     · intro k v w hk
       exact h.t2e k v w ((h3 _ _ _).mp hk)
+    · intro en hen w hw
+      exact h.due en hen w ((h3 _ _ _).mp hw)
 
 theorem TInv.clear (m : Nat) {q : DelayQ} {now : Nat} (ht : q.Timely now) : TInv m [] q.clear now :=
-  ⟨Nat.zero_le _, clear_wf q, clear_timely ht, fun en hen => (by cases hen), fun k v w hk => absurd hk (clear_has q k v w)⟩
+  ⟨Nat.zero_le _, clear_wf q, clear_timely ht, fun en hen => (by cases hen), fun k v w hk => absurd hk (clear_has q k v w),
+   fun en hen => (by cases hen)⟩
 
 theorem TInv.empty (m now : Nat) : TInv m [] {} now :=
-  ⟨Nat.zero_le _, empty_wf, empty_timely now, fun en hen => (by cases hen), fun k v w hk => absurd hk (empty_has k v w)⟩
+  ⟨Nat.zero_le _, empty_wf, empty_timely now, fun en hen => (by cases hen), fun k v w hk => absurd hk (empty_has k v w),
+   fun en hen => (by cases hen)⟩
 
 /-- The armed timers and the table have the same size. -/
 theorem TInv.len_eq {m : Nat} {inf : List Entry} {q : DelayQ} {now : Nat} (h : TInv m inf q now)
@@ -1067,8 +1123,8 @@ theorem insertRequest_some {s s' : St} {now : Nat} {r : DReq} (h : insertRequest
       s' = emit { s with poisoned := true } (.panic (tid s) "DelayQueue::insert: invalid deadline")) ∨
     (findEntry s r.id = none ∧ ∃ q key w, s.timers.insert now (clampTimeout (r.ctx.deadline - now)) r.id = (q, .ok key, w) ∧
       s' = (if w then
-              wakeDispatch { s with timers := q, inflight := s.inflight ++ [{ id := r.id, cid := r.cid, ctx := r.ctx, timerKey := key, remainder := (r.ctx.deadline - now) - clampTimeout (r.ctx.deadline - now) }] }
-            else { s with timers := q, inflight := s.inflight ++ [{ id := r.id, cid := r.cid, ctx := r.ctx, timerKey := key, remainder := (r.ctx.deadline - now) - clampTimeout (r.ctx.deadline - now) }] })) := by
+              wakeDispatch { s with timers := q, inflight := s.inflight ++ [{ id := r.id, cid := r.cid, ctx := r.ctx, timerKey := key, remainder := (r.ctx.deadline - now) - clampTimeout (r.ctx.deadline - now), dueAt := now + clampTimeout (r.ctx.deadline - now) }] }
+            else { s with timers := q, inflight := s.inflight ++ [{ id := r.id, cid := r.cid, ctx := r.ctx, timerKey := key, remainder := (r.ctx.deadline - now) - clampTimeout (r.ctx.deadline - now), dueAt := now + clampTimeout (r.ctx.deadline - now) }] })) := by
   unfold Client.insertRequest at h
   split at h
   · rename_i hf; cases h; exact Or.inl ⟨hf, rfl⟩
@@ -1097,7 +1153,7 @@ theorem Inv'.insertRequest {x : Option Nat} {b : Snap} {s : St} {now : Nat} {r :
   · exact Inv'.emit (s := { s with poisoned := true }) ⟨h0.fr, h0.t, h0.i, h0.c, h0.r, h0.o⟩
       ⟨rfl, insert_panic_late hins⟩
   · have hnone := findEntry_none_ne hf
-    suffices hS : Inv' x b { s with timers := q, inflight := s.inflight ++ [{ id := r.id, cid := r.cid, ctx := r.ctx, timerKey := key, remainder := (r.ctx.deadline - now) - clampTimeout (r.ctx.deadline - now) }] } now by
+    suffices hS : Inv' x b { s with timers := q, inflight := s.inflight ++ [{ id := r.id, cid := r.cid, ctx := r.ctx, timerKey := key, remainder := (r.ctx.deadline - now) - clampTimeout (r.ctx.deadline - now), dueAt := now + clampTimeout (r.ctx.deadline - now) }] } now by
       split
       · exact hS.quiet (quiet_wakeDispatch _)
       · exact hS
@@ -1131,15 +1187,16 @@ theorem Inv'.insertRequest {x : Option Nat} {b : Snap} {s : St} {now : Nat} {r :
 
 /-! ### `poll_expired` -/
 
-theorem rearmEntry_same (id key t : Nat) (e : Entry) :
-    (rearmEntry id key t e).id = e.id ∧ (rearmEntry id key t e).cid = e.cid ∧ (rearmEntry id key t e).ctx = e.ctx := by
+theorem rearmEntry_same (id key t due : Nat) (e : Entry) :
+    (rearmEntry id key t due e).id = e.id ∧ (rearmEntry id key t due e).cid = e.cid ∧
+      (rearmEntry id key t due e).ctx = e.ctx := by
   unfold rearmEntry; split <;> exact ⟨rfl, rfl, rfl⟩
 
-theorem rearmEntry_ne {id key t : Nat} {e : Entry} (h : e.id ≠ id) : rearmEntry id key t e = e := by
+theorem rearmEntry_ne {id key t due : Nat} {e : Entry} (h : e.id ≠ id) : rearmEntry id key t due e = e := by
   unfold rearmEntry; rw [if_neg (by simpa using h)]
 
-theorem rearmEntry_eq {id key t : Nat} {e : Entry} (h : e.id = id) :
-    rearmEntry id key t e = { e with timerKey := key, remainder := e.remainder - t } := by
+theorem rearmEntry_eq {id key t due : Nat} {e : Entry} (h : e.id = id) :
+    rearmEntry id key t due e = { e with timerKey := key, remainder := e.remainder - t, dueAt := due } := by
   unfold rearmEntry; rw [if_pos (by simpa using h)]
 
 /-- The entries are re-keyed (id, call and context stay) and the timers follow suit. -/
@@ -1168,21 +1225,21 @@ theorem Inv'.rekey {x : Option Nat} {b : Snap} {s s' : St} {now : Nat} (h : Inv'
   · rw [hm, hc, ho]; exact h.o
 
 /-- The two ways re-arming ends (case analysis on the *result* of the insert). -/
-theorem rearmWith_cases (s : St) (id t : Nat) (r : DelayQ × DelayQ.InsertRes × Bool) :
-    (∃ q' w, r = (q', .panic, w) ∧ rearmWith s id t r =
+theorem rearmWith_cases (s : St) (id t due : Nat) (r : DelayQ × DelayQ.InsertRes × Bool) :
+    (∃ q' w, r = (q', .panic, w) ∧ rearmWith s id t due r =
       .done (emit { s with poisoned := true } (.panic (tid s) "DelayQueue::insert: invalid deadline")) false) ∨
-    (∃ q' key w, r = (q', .ok key, w) ∧ rearmWith s id t r =
-      .again (if w then wakeDispatch { s with timers := q', inflight := s.inflight.map (rearmEntry id key t) }
-              else { s with timers := q', inflight := s.inflight.map (rearmEntry id key t) })) := by
+    (∃ q' key w, r = (q', .ok key, w) ∧ rearmWith s id t due r =
+      .again (if w then wakeDispatch { s with timers := q', inflight := s.inflight.map (rearmEntry id key t due) }
+              else { s with timers := q', inflight := s.inflight.map (rearmEntry id key t due) })) := by
   obtain ⟨q', res, w⟩ := r
   cases res with
   | panic => exact Or.inl ⟨q', w, rfl, rfl⟩
   | ok key => exact Or.inr ⟨q', key, w, rfl, rfl⟩
 
-theorem mem_map_rearm {inf : List Entry} (hn : (inf.map (·.id)).Nodup) {en : Entry} (hen : en ∈ inf) (key t : Nat)
+theorem mem_map_rearm {inf : List Entry} (hn : (inf.map (·.id)).Nodup) {en : Entry} (hen : en ∈ inf) (key t due : Nat)
     (x : Entry) :
-    x ∈ inf.map (rearmEntry en.id key t) ↔
-      x ∈ inf.filter (·.id != en.id) ++ [{ en with timerKey := key, remainder := en.remainder - t }] := by
+    x ∈ inf.map (rearmEntry en.id key t due) ↔
+      x ∈ inf.filter (·.id != en.id) ++ [{ en with timerKey := key, remainder := en.remainder - t, dueAt := due }] := by
   simp only [List.mem_map, List.mem_append, List.mem_filter, bne_iff_ne, ne_eq, List.mem_singleton]
   constructor
   · rintro ⟨e, he, rfl⟩
@@ -1208,7 +1265,7 @@ theorem Inv'.expireWith {x : Option Nat} {b : Snap} {s : St} {now : Nat} (h : In
   unfold Client.expireWith
   split
   · rename_i q e
-    obtain ⟨en0, hen0, hid0, hdl, hdue, ht⟩ := hsome e rfl
+    obtain ⟨en0, hen0, hid0, hdl, hdue, ht, hd1, hd2, hd3, hd4⟩ := hsome e rfl
     simp only at ht
     cases hf : findEntry s e.val with
     | none => exact absurd hid0 (findEntry_none_ne hf en0 hen0)
@@ -1216,40 +1273,43 @@ theorem Inv'.expireWith {x : Option Nat} {b : Snap} {s : St} {now : Nat} (h : In
       obtain ⟨hen, hid⟩ := findEntry_some_mem hf
       have heq : en = en0 := eq_of_nodup_map (·.id) h.i.inNodup hen hen0 (by rw [hid, hid0])
       subst heq
-      show Inv' x b (ExpStep.st (if en.remainder - (now - e.whenMs * nsPerMs) != 0 then _ else _)) now
+      show Inv' x b (ExpStep.st (if en.remainder - (now - en.dueAt) != 0 then _ else _)) now
       split
       · -- the timer is re-armed with (part of) what is left of the remainder after the lateness
         rename_i hne
-        have hne' : en.remainder - (now - e.whenMs * nsPerMs) ≠ 0 := by simpa using hne
+        have hne' : en.remainder - (now - en.dueAt) ≠ 0 := by simpa using hne
         unfold Client.rearm
-        rcases rearmWith_cases s e.val (now - e.whenMs * nsPerMs + clampTimeout (en.remainder - (now - e.whenMs * nsPerMs)))
-            (q.insert now (clampTimeout (en.remainder - (now - e.whenMs * nsPerMs))) e.val) with
+        rcases rearmWith_cases s e.val (now - en.dueAt + clampTimeout (en.remainder - (now - en.dueAt)))
+            (now + clampTimeout (en.remainder - (now - en.dueAt)))
+            (q.insert now (clampTimeout (en.remainder - (now - en.dueAt))) e.val) with
           ⟨q', w, hins, hrw⟩ | ⟨q', key, w, hins, hrw⟩
         · rw [hrw]
           exact Inv'.emit (s := { s with poisoned := true }) ⟨h.fr, h.t, h.i, h.c, h.r, h.o⟩
             ⟨rfl, insert_panic_late hins⟩
         · rw [hrw]
-          generalize hcut : now - e.whenMs * nsPerMs + clampTimeout (en.remainder - (now - e.whenMs * nsPerMs)) = cut
-          have hle := clampTimeout_le_self (en.remainder - (now - e.whenMs * nsPerMs))
-          have hT : TInv s.maxInFlight (s.inflight.map (rearmEntry e.val key cut)) q' now := by
+          have hle := clampTimeout_le_self (en.remainder - (now - en.dueAt))
+          generalize hT' : clampTimeout (en.remainder - (now - en.dueAt)) = T at hins hle ⊢
+          generalize hcut : now - en.dueAt + T = cut
+          have hT : TInv s.maxInFlight (s.inflight.map (rearmEntry e.val key cut (now + T))) q' now := by
             have h1 : TInv s.maxInFlight
-                (s.inflight.filter (·.id != e.val) ++ [{ en with timerKey := key, remainder := en.remainder - cut }]) q' now := by
-              refine ht.insertEntry ?_ { en with timerKey := key, remainder := en.remainder - cut }
-                (by rw [← hid] at hins; exact hins) (by simp only; omega)
+                (s.inflight.filter (·.id != e.val) ++
+                  [{ en with timerKey := key, remainder := en.remainder - cut, dueAt := now + T }]) q' now := by
+              refine ht.insertEntry ?_ { en with timerKey := key, remainder := en.remainder - cut, dueAt := now + T }
+                (by rw [← hid] at hins; exact hins) rfl (by simp only; omega) (by simp only; omega)
               have := length_filter_ne_lt hen
               rw [hid] at this
               exact Nat.lt_of_lt_of_le this h.t.bound
             refine h1.of_mem (by rw [List.length_map]; exact h.t.bound) (fun y => ?_)
-            rw [← hid]; exact mem_map_rearm h.i.inNodup hen key _ y
-          have hS : Inv' x b { s with timers := q', inflight := s.inflight.map (rearmEntry e.val key cut) } now :=
-            h.rekey _ (rearmEntry_same _ _ _) rfl rfl rfl rfl rfl rfl hT
+            rw [← hid]; exact mem_map_rearm h.i.inNodup hen key _ _ y
+          have hS : Inv' x b { s with timers := q', inflight := s.inflight.map (rearmEntry e.val key cut (now + T)) } now :=
+            h.rekey _ (rearmEntry_same _ _ _ _) rfl rfl rfl rfl rfl rfl hT
           show Inv' x b (if w = true then _ else _) now
           split
           · exact hS.quiet (quiet_wakeDispatch _)
           · exact hS
       · -- nothing left to arm: the deadline has passed
         rename_i hz
-        have hz' : en.remainder - (now - e.whenMs * nsPerMs) = 0 := by simpa using hz
+        have hz' : en.remainder - (now - en.dueAt) = 0 := by simpa using hz
         have h1 : Inv' x b { s with timers := q, inflight := s.inflight.filter (·.id != e.val) } now :=
           h.shrink rfl (List.Sublist.refl _) List.filter_sublist rfl rfl rfl ht
         refine h1.osSend en.cid .deadline ?_
@@ -1282,8 +1342,8 @@ theorem Inv'.pollExpired {x : Option Nat} {b : Snap} {s : St} {now : Nat} (h : I
 theorem expireStep_of_expired {s : St} {now : Nat} {e : DqEntry} {en : Entry}
     (h : (s.timers.pollExpired now).2 = .expired e) (hf : findEntry s e.val = some en) :
     expireStep s now =
-      if en.remainder - (now - e.whenMs * nsPerMs) != 0 then
-        rearm s (s.timers.pollExpired now).1 now e.val en (now - e.whenMs * nsPerMs)
+      if en.remainder - (now - en.dueAt) != 0 then
+        rearm s (s.timers.pollExpired now).1 now e.val en (now - en.dueAt)
       else .done (osSend { s with timers := (s.timers.pollExpired now).1,
                                   inflight := s.inflight.filter (·.id != e.val) } en.cid .deadline) true := by
   unfold Client.expireStep
@@ -1297,7 +1357,7 @@ theorem expireStep_of_expired {s : St} {now : Nat} {e : DqEntry} {en : Entry}
 theorem rearm_ne_done_true (s : St) (q : DelayQ) (now id : Nat) (en : Entry) (late : Nat) (s' : St) :
     rearm s q now id en late ≠ .done s' true := by
   unfold Client.rearm
-  rcases rearmWith_cases s id (late + clampTimeout (en.remainder - late))
+  rcases rearmWith_cases s id (late + clampTimeout (en.remainder - late)) (now + clampTimeout (en.remainder - late))
       (q.insert now (clampTimeout (en.remainder - late)) id) with
     ⟨_, _, _, hrw⟩ | ⟨_, _, _, _, hrw⟩ <;> rw [hrw] <;> simp
 
